@@ -93,12 +93,41 @@ def _note_op(step, name, octave):
 
 
 def check_track(ctx, case):
-    td, steps = case["track"], case["steps"]
-    track = mg.build_track(td)
+    steps = case["steps"]
     flags = set()
-    for b in td["bars"]:
-        if any(e["notes"] is None for e in b["entries"]) and any(e["notes"] and len(e["notes"]) > 1 for e in b["entries"]):
-            flags.add("rest+chord-bar")
+    if "chords" in case:  # a track built by Track.from_chords (repeated symbols, nested lists, rests)
+        from mingus.containers import Track
+        track = ctx.ok("from_chords", Track().from_chords, case["chords"], case["duration"])
+        if failed(track):
+            return
+        flags.add("from-chords")
+    else:
+        td = case["track"]
+        track = mg.build_track(td)
+        for b in td["bars"]:
+            if any(e["notes"] is None for e in b["entries"]) and any(e["notes"] and len(e["notes"]) > 1 for e in b["entries"]):
+                flags.add("rest+chord-bar")
+        if case.get("sequence"):
+            # a melodic sequence: every following bar is the first bar moved by the interval the history then uses
+            from mingus.containers import Bar, Note, NoteContainer
+            sh, up, count = case["sequence"]
+            first = track.bars[0]
+            track.bars = [first]
+            for k in range(1, count + 1):
+                b = Bar(first.key, first.meter)
+                for e in first.bar:
+                    if e[2] is None:
+                        b.place_rest(e[1])
+                    else:
+                        ns = []
+                        for n in e[2].notes:
+                            m = Note(n.name, n.octave, channel=n.channel, velocity=n.velocity)
+                            for _ in range(k):
+                                m.transpose(sh, up)
+                            ns.append(m)
+                        b.place_notes(NoteContainer(ns), e[1])
+                track.add_bar(b)
+            flags.add("melodic-sequence")
     if len(steps) >= 3:
         flags.add("long-history")
     for k, step in enumerate(steps):
@@ -189,7 +218,7 @@ def sub_notes(ctx, shard, n):
 
 
 def _cfg():
-    return SG.Cfg(octaves=[2, 3, 4, 5, 6], max_bars=3, max_groups=5, instruments=["none"], max_chord=4, max_pitch=200)
+    return SG.Cfg(octaves=[2, 3, 4, 5, 6], max_bars=3, max_groups=5, instruments=["none"], max_chord=4, max_pitch=200, twin_p=4)
 
 
 def _steps_st():
@@ -208,7 +237,23 @@ def sub_tracks(ctx, shard, n):
     ctx.given("track", check_track, strat, 300 if ctx.quick else 2000)
 
 
+def sub_special_tracks(ctx, shard, n):
+    chord = st.sampled_from(["C", "Am", "G7", "F", "Dm7", "C", "C"]) | st.none()
+    chordlist = st.lists(st.recursive(chord, lambda c: st.lists(c, min_size=1, max_size=3), max_leaves=4), min_size=2, max_size=6)
+    from_chords = st.fixed_dictionaries({"chords": chordlist, "duration": st.sampled_from([1, 2, 4]), "steps": _steps_st()})
+    ctx.given("track", check_track, from_chords, 150 if ctx.quick else 1500)
+    # melodic sequences followed by a history that starts with the same interval at track level
+    def mk(td, sh, up, count, more):
+        first = ["transpose", "track", 0, 0, sh, up]
+        return {"track": td, "sequence": [sh, up, count], "steps": [first] + more}
+    seq = st.builds(mk, SG.track_st(SG.Cfg(octaves=[3, 4, 5], max_bars=1, max_groups=4, instruments=["none"], max_chord=3, max_pitch=200,
+                                           names=T.unmixed_names(1))),
+                    st.sampled_from(["2", "b2", "3", "b3", "4", "5", "1", "#1"]), st.booleans(), st.integers(1, 3), _steps_st())
+    ctx.given("track", check_track, seq, 150 if ctx.quick else 1500)
+
+
 SUBS = [
     Sub("notes", sub_notes, quick=4, thorough=8),
     Sub("tracks", sub_tracks, quick=6, thorough=16),
+    Sub("special_tracks", sub_special_tracks, quick=3, thorough=8),
 ]
